@@ -62,7 +62,7 @@ func witnesses() []wit {
 		c1, c2 := `w6q`, `w7q`
 		html := head + `<body><table id="t1"><thead id="g1">` + h + `</thead><tbody><tr><td id="c1">` + c1 + `</td></tr><tr><td id="c2">` + c2 + `</td></tr></tbody></table></body>`
 		ws = append(ws, wit{"thead-too-tall-dropped", "a table header group higher than the page is dropped on every page (tableLayout: 'header too big for the page'): its text is laid out zero times",
-			Input{HTML: html, Flows: []Flow{{ID: "", Kind: "main"}, {ID: "g1", Kind: "hdr", Table: "t1", Text: frag(h), Strict: true},
+			Input{HTML: html, Flows: []Flow{{ID: "", Kind: "main"}, {ID: "g1", Kind: "hdr", Table: "t1", Text: frag(h)},
 				{ID: "c1", Kind: "cell", Text: c1, InFlow: true}, {ID: "c2", Kind: "cell", Text: c2, InFlow: true}}, Mode: "witness"}})
 	}
 	{
@@ -71,6 +71,35 @@ func witnesses() []wit {
 		html := head + `<body>` + a + `</body>`
 		ws = append(ws, wit{"gotext-preserved-space-text-not-cut", "go-text engine: when white space is preserved (pre-wrap, pre, pre-line) and the text wraps, the TextBox of a line keeps the whole remaining text instead of the text of the line (wrapWordBreak cuts the layout text only when spaces collapse)",
 			Input{HTML: html, Engine: "gotext", Flows: []Flow{{ID: "", Kind: "main", Text: frag(a)}}, Mode: "witness"}})
+	}
+	{
+		head := `<style>@page{size:600px 76px;margin:0}html{margin:0;padding:0}body{font-family:ahem;font-size:10px;line-height:1.5;margin:0}p{margin:0}</style>`
+		a := `<p>w1q<br>w2q<br>w3q</p>w4q <span style="display:inline-block;width:3em">w5q w6q w7q w8q w9q</span> waq `
+		fx := `wbqA`
+		html := head + `<body>` + a + `<div id="x1" style="position:fixed;top:2px;right:0;width:50px">` + fx + `</div></body>`
+		ws = append(ws, wit{"fixed-duplicated-after-line-push", "a line box holding a position:fixed placeholder (and a tall inline-block) does not fit on page 1 and is pushed to page 2; page 1 keeps the placeholder in its fixed boxes, so page 2 gets the box twice",
+			Input{HTML: html, Flows: []Flow{{ID: "", Kind: "main", Text: frag(a)}, {ID: "x1", Kind: "fixed", Text: frag(fx)}}, Mode: "witness"}})
+	}
+	{
+		head := `<style>@page{size:300px 200px;margin:0}html{margin:0;padding:0}body{font-family:ahem;font-size:10px;line-height:1.5;margin:0}p{margin:0}</style>`
+		c1, c2 := `w3q`, `w4q`
+		html := head + `<body><p>w1q</p><table id="t1" style="table-layout:fixed;width:100px"><tbody></tbody><tbody><tr><td id="c1">` + c1 + `</td><td id="c2">` + c2 + `</td></tr></tbody></table><p>w2q</p></body>`
+		ws = append(ws, wit{"fixed-layout-empty-first-group", "table-layout:fixed takes the columns from the first row of the first row group only (fixedTableLayout); when that group is empty (an empty <tbody>, or <tfoot> + empty <tbody>) the grid has no column and every cell of the table is removed: its text is laid out zero times. CSS 2.1 17.5.2.1 speaks of the first row of the table",
+			Input{HTML: html, Flows: []Flow{{ID: "", Kind: "main", Text: "w1qw2q"}, {ID: "c1", Kind: "cell", Text: c1, Prev: "w1q", Next: "w2q", InFlow: true}, {ID: "c2", Kind: "cell", Text: c2, Prev: "w1q", Next: "w2q", InFlow: true}}, Mode: "witness"}})
+	}
+	{
+		head := `<style>@page{size:300px 200px;margin:0}html{margin:0;padding:0}body{font-family:ahem;font-size:10px;line-height:2;margin:0}p{margin:0}</style>`
+		fl := `w3q`
+		html := head + `<body><p>w1qABCDEFGHIJ w2qABCDEFGHIJ <span><span id="f1" style="float:right;width:4em">` + fl + `</span></span> w4qABCDE</p></body>`
+		ws = append(ws, wit{"float-in-inline-box-duplicated", "a float that is the child of an inline box and does not fit beside the text of the current line is laid out twice below the line (two float boxes side by side), far from any page boundary",
+			Input{HTML: html, Flows: []Flow{{ID: "", Kind: "main", Text: "w1qABCDEFGHIJw2qABCDEFGHIJw4qABCDE"}, {ID: "f1", Kind: "float", Text: fl, Prev: "w2q", Next: "w4q"}}, Mode: "witness"}})
+	}
+	{
+		head := `<style>@page{size:300px 200px;margin:0}html{margin:0;padding:0}body{font-family:ahem;font-size:10px;line-height:1.5;margin:0}p{margin:0}</style>`
+		fl := `<p>w2q</p><p style="break-before:page">w3q</p>`
+		html := head + `<body><p>w1q</p><div id="f1" style="float:left;width:10em">` + fl + `</div></body>`
+		ws = append(ws, wit{"float-forced-break-lost", "a forced page break inside a float splits the float; the main flow ends on page 1, so the part of the float after the break is never laid out (same mechanism as float-last-child-lost)",
+			Input{HTML: html, Flows: []Flow{{ID: "", Kind: "main", Text: "w1q"}, {ID: "f1", Kind: "float", Text: frag(fl), Prev: "w1q"}}, Mode: "witness"}})
 	}
 	return ws
 }
